@@ -142,10 +142,19 @@ def generate(seed, h, tier):
         r = rng.sub("faults")
         spec["start"] = r.pick(["shipped", "shipped", "empty"])
         spec["crashes"] = [_crash(r) for _ in range(r.pick([1, 1, 1, 2]))]
+        if h == 2:
+            # always present in every tier: the one output with readers of its own, torn at a
+            # line boundary (a shorter but well-formed table), the pass going on as the shell
+            # script would
+            spec["start"] = "shipped"
+            spec["crashes"] = [{"script": "create_head_count_csv.py", "tear": "line", "ppm": r.randrange(1000000),
+                                "then": "rest_of_pass"}]
     elif kind == "dirty":
         r = rng.sub("faults")
         files = list(engine_i.ALL_OUTPUTS)
-        n = r.pick([1, 2, 3, 4, 6, 21])
+        n = r.pick([2, 3, 4, 6, 21] if h < 16 else [1, 2, 2, 3, 4, 6, 21])
+        modes = list(GARBAGE_MODES)
+        r.shuffle(modes)  # modes drawn without replacement within a history
         chosen = []
         if r.chance(0.4):
             chosen.append(engine_i.OUTPUT["create_head_count_csv.py"])
@@ -155,7 +164,7 @@ def generate(seed, h, tier):
             f = r.pick(files)
             if f not in chosen:
                 chosen.append(f)
-        spec["garbage"] = [{"file": f, "mode": r.pick(GARBAGE_MODES), "seed": r.randrange(2 ** 31)} for f in sorted(chosen)]
+        spec["garbage"] = [{"file": f, "mode": modes[i % len(modes)], "seed": r.randrange(2 ** 31)} for i, f in enumerate(sorted(chosen))]
         spec["extras"] = sorted(set(r.pick(EXTRA_NAMES) for _ in range(r.randrange(3))))
         if r.chance(0.5):  # leftovers of an out-of-order partial run on the dirty directory
             cheap = [s for s in engine_i.DOC_ORDER if s not in ("create_seaweed_csv.py", "create_nuclear_winter_csv.py",
